@@ -118,3 +118,24 @@ Section Sem.
   Variable sem : nat -> store -> store.      (* what running task i does *)
   Definition exec (order : list nat) (s : store) : store := fold_left (fun st i => sem i st) order s.
 End Sem.
+
+(** * What a task may touch, from its declared views alone (no claim bookkeeping, no table)
+    Through its query: the viewed components of the archetypes that have every non-optional
+    viewed component and pass the filter.  Through [Entries]: a viewed entry component of ANY
+    archetype that has it (an entry can be looked up for any identifier). *)
+Definition mode_of (k : vkind) : claim := if is_mut_kind k then CMut else CImm.
+Definition claim_max (a b : claim) : claim :=
+  match a, b with
+  | CMut, _ | _, CMut => CMut
+  | CImm, _ | _, CImm => CImm
+  | CNone, CNone => CNone
+  end.
+Definition declared_match (t : task) (s : shape) : bool :=
+  forallb (fun v => match v with VComp k c => is_opt_kind k || get_bit c s | VIdent => true end) (t_views t)
+  && filter_eval (t_filter t) s.
+Definition may_access (t : task) (s : shape) (c : nat) : claim :=
+  claim_max
+    (if declared_match t s && get_bit c s
+     then match kind_of c (t_views t) with Some k => mode_of k | None => CNone end else CNone)
+    (if get_bit c s
+     then match kind_of c (t_entry t) with Some k => mode_of k | None => CNone end else CNone).
